@@ -3,6 +3,10 @@
 import json, os
 V = os.path.dirname(os.path.dirname(os.path.abspath(__file__)))
 reg = json.load(open(os.path.join(V, "checks", "registry.json")))
+rd = os.path.join(V, "checks", "registry.d")
+for f in sorted(os.listdir(rd)) if os.path.isdir(rd) else []:
+    if f.endswith(".json"):
+        reg["checks"][f[:-5]] = json.load(open(os.path.join(rd, f)))
 props = [json.loads(l) for l in open(os.path.join(V, "properties.jsonl"))]
 checks, na = [], []
 for p in props:
@@ -22,6 +26,9 @@ for p in props:
         "level_note": r["note"],
         "technique": r.get("technique", "Lean 4 theorems about an executable model + differential correspondence of the model with the code"),
     })
+served = sorted(reg["checks"].keys())
+for e in reg["engines"]:
+    e["serves_properties"] = served
 m = {
     "version": 1,
     "setup_cmd": "bin/setup",
